@@ -82,7 +82,31 @@ def lr_functions(ctx, name):
     return list(ctx.fb.functions(rec=LR, name=name))
 
 
+def counters_are_atomics(ctx):
+    """the protocol rules read the two reader counters as std::atomic integers that lock_shared() increments and the
+    writer polls; a counter that became an object of its own (striped slots, a registration class) is another
+    representation"""
+    recs = [r for r in ctx.fb.records(tmpl=LR)]
+    if not recs:
+        return False
+    for r in recs:
+        for c in COUNTERS:
+            fl = r.field(c)
+            if fl is None or not re.match(r"^std::atomic<[^<>]*>$", fl["type"]):
+                return False
+    return True
+
+
 def run(ctx):
+    if not counters_are_atomics(ctx):
+        ctx.unknown("C03: lr_guarded's reader counters are no longer plain std::atomic integers; the rules that follow "
+                    "registration, drain and release through them describe that representation and cannot judge another one")
+        ctx.step(handler_rules, ctx)
+        ctx.step(lr_handlers, ctx, "C03.rollback")
+        ctx.step(deleter_rules, ctx)
+        ctx.step(common.init_order, ctx, "C03.init", [LR], floor=4)
+        ctx.step(common.witnesses, ctx, "C03.witness", ["C03"])
+        return
     ctx.step(modify_rules, ctx)
     ctx.step(handler_rules, ctx)
     ctx.step(lr_handlers, ctx, "C03.rollback")
@@ -278,6 +302,15 @@ def deleter_rules(ctx, rid="C03.deleter"):
         # (reset(), destruction) - the registration has to be given back there, exactly once
         for f in fb.functions(rec=DEL, name="operator()"):
             n += 1
+            # a handle can be released by another thread than the one that took it: which counter is given back must not
+            # depend on who is running the deleter
+            from ..common import call_closure
+            tid = [g for g, _via, _c in call_closure(fb, f) if any(
+                s_["k"] == "CallExpr" and callee_fq(s_) == "std::this_thread::get_id" for s_ in g.stmts.values())]
+            ctx.ob(rid, not tid, f.where, "the deleter gives back the registration it was created for, whichever thread runs it",
+                   "" if not tid else "the release path consults std::this_thread::get_id() (in %s): a handle released on another "
+                   "thread than the one that acquired it decrements a different counter, and the writer waits for ever on the one "
+                   "that was incremented" % tid[0].name, fn=f.label, inst=f.qname)
             ops = [op for op in atomic_ops(f) if op["op"] == "rmw" and op["name"] in ("operator--", "fetch_sub")]
             ok = len(ops) == 1
             ctx.ob(rid, ok, f.where, "invoked with the handle's pointer, the deleter gives the registration back (one decrement "
@@ -291,7 +324,9 @@ def deleter_rules(ctx, rid="C03.deleter"):
     for f in fb.functions(rec=DEL):
         if f.kind == "ctor" and not f.defaulted and len(f.params) == 1:
             ini = [i for i in f.inits if i.get("field") == "m_readingCount"]
-            ok = bool(ini) and path(f, f.s(ini[0]["init"])) == "p:" + f.params[0]["name"]
+            ok = bool(ini) and (path(f, f.s(ini[0]["init"])) == "p:" + f.params[0]["name"] or any(
+                d["k"] == "DeclRefExpr" and d["d"].get("k") == "param" and d["d"].get("name") == f.params[0]["name"]
+                for d in f.descendants(f.s(ini[0]["init"]))))      # the counter itself, or the part of it this reader registered in
             ctx.ob(rid, ok, f.where, "the deleter binds the counter it is constructed with", "", fn=f.label, inst=f.qname)
         if f.name == "operator()":
             n += 1
